@@ -38,6 +38,7 @@ type C16Case struct {
 	Err  string   `json:"err,omitempty"`
 	Segs []C16Seg `json:"segs"`
 	Args []C16Arg `json:"args"`
+	Opts Opts     `json:"opts,omitempty"` // echo mode: options under which the sanitized query is executed
 }
 
 func (a C16Arg) goValue() (any, bool) {
@@ -203,6 +204,14 @@ func genC16(t *rapid.T) any {
 	if mode == "echo" {
 		c.Args = []C16Arg{genC16Arg(t, "arg")}
 		c.Segs = []C16Seg{{K: "t", S: "SELECT "}, {K: "p", N: 1}, {K: "t", S: " AS v FROM dual"}}
+		if rapid.Bool().Draw(t, "two") {
+			// two literals in one statement, executed under an option set: an argument must not disturb
+			// how the rest of the statement is read by the option pre-processors either
+			c.Args = append(c.Args, genC16Arg(t, "arg2"))
+			c.Segs = []C16Seg{{K: "t", S: "SELECT "}, {K: "p", N: 1}, {K: "t", S: " AS v, "}, {K: "p", N: 2}, {K: "t", S: " AS w FROM dual"}}
+			b := rapid.IntRange(0, 3).Draw(t, "optbits")
+			c.Opts = Opts{PG: b&1 != 0, Arrays: b&2 != 0}
+		}
 		return c
 	}
 	nargs := rapid.IntRange(1, 4).Draw(t, "nargs")
@@ -453,21 +462,27 @@ func checkC16(c *C16Case) Result {
 			res.Violation = fmt.Sprintf("SanitizeSQL(%q, %s) failed: %v", tmpl, val.JSON(args), err)
 			return res
 		}
-		out := Run(map[string]any{}, s, Opts{})
+		out := Run(map[string]any{}, s, c.Opts)
 		res.Execs++
+		if c.Opts.PG || c.Opts.Arrays {
+			res.Labels = append(res.Labels, "echo-under:"+c.Opts.String())
+		}
 		if !out.OK() {
-			res.Violation = fmt.Sprintf("echo of %s: sanitized query %q does not execute: %s", val.JSON(args[0]), s, out.Describe())
+			res.Violation = fmt.Sprintf("echo of %s: sanitized query %q (options %s) does not execute: %s", val.JSON(args), s, c.Opts, out.Describe())
 			return res
 		}
 		if len(out.Rows) != 1 {
-			res.Violation = fmt.Sprintf("echo of %s: sanitized query %q returned %s", val.JSON(args[0]), s, val.JSON(out.Rows))
+			res.Violation = fmt.Sprintf("echo of %s: sanitized query %q returned %s", val.JSON(args), s, val.JSON(out.Rows))
 			return res
 		}
 		row, _ := out.Rows[0].(map[string]any)
-		got, present := row["v"]
-		want := val.Norm(args[0])
-		if !present && want != nil || !c16Same(got, want) {
-			res.Violation = fmt.Sprintf("echo: argument %s (%T) came back as %s from %q", val.JSON(args[0]), args[0], val.JSON(got), s)
+		for i, alias := range []string{"v", "w"}[:len(args)] {
+			got, present := row[alias]
+			want := val.Norm(args[i])
+			if !present && want != nil || !c16Same(got, want) {
+				res.Violation = fmt.Sprintf("echo: argument %d %s (%T) came back as %s from %q (options %s)", i+1, val.JSON(args[i]), args[i], val.JSON(got), s, c.Opts)
+				return res
+			}
 		}
 		return res
 	}
@@ -523,7 +538,7 @@ func init() {
 			"inside), \"..\", backtick identifiers, /* */, `-- `, `#` and `//` comments; arguments: strings over a quote-hostile alphabet (' \\ \" ` -- /* # NUL " +
 			"newline Ctrl-Z multi-byte runes SQL keywords `$1`), int64 incl. extremes, finite float64 incl. tiny/huge, bool, nil. Oracle: the library " +
 			"parser's canonical form of SanitizeSQL(T,args) equals that of T with each placeholder replaced by the harness's own MySQL-correct literal. " +
-			"Echo mode: `SELECT $1 AS v FROM dual` executed through New/Exec returns exactly the argument. Err mode: missing argument, unused " +
+			"Echo mode: `SELECT $1 AS v FROM dual` (or two arguments, under PostgresEscapingDialect / IdiomaticArrays in half of those) executed through New/Exec returns exactly the argument(s). Err mode: missing argument, unused " +
 			"argument, `$0` -> error, no panic. Non-trivial: a string argument containing ' \\ \" ` -- /* # NUL or a multi-byte rune, or a decoy present, or err mode.",
 		Assumptions: []string{
 			"arguments are valid UTF-8 strings, int64, finite float64, bool or nil (the types the statement lists)",
